@@ -14,11 +14,21 @@ stack broken).
 Modelled, not verified: the cavity / hull-extension / star-split geometry (`Env.impl`).  Under
 `ValidationPolicy::Never` + `Pseudomanifold` no check runs (`selectCheck_never_pseudo`); there the
 property rests on the algorithm alone and only the K3 tie speaks.
+ * cavity section (end of file, Model/Cavity.lean): the CELL-SET edit of the cavity / hull-extension
+   step (remove the conflict region `C`, cone the new vertex over `F`) — count, star/link of the new
+   vertex, which old vertices survive (`cavity_swallowed_vertex_isolated`), facet degrees, and the
+   executable step check `cavityStepProblem` (sound and complete).  The geometry (which cells are in
+   conflict, which hull facets are visible) stays a parameter.
 -/
 import DelaunayModel.Model.Insert
+import DelaunayModel.Lemmas.CavityAux
 namespace DM.C02
 
 open DM.Policy DM.Insert
+-- Model/Cavity.lean (imported for the cavity section at the end of this file) brings in Model/Cx.lean,
+-- whose `DM.Guarantee` (:= Nat) would shadow `DM.Policy.Guarantee` inside `namespace DM.C02`; the
+-- alias makes `Guarantee` mean `DM.Policy.Guarantee` here, as before.
+export DM.Policy (Guarantee)
 
 /-- the whole decision table, stated outright -/
 theorem selectCheck_table (p : VPolicy) (g : Guarantee) (susp debug hasCells : Bool) :
@@ -138,5 +148,580 @@ example :
         relocates := fun _ => true, runCheck := fun _ s => s ≥ 10, hasCells := fun _ => true,
         isDuplicate := fun _ _ => false, retryable := fun _ => true, dupErr := fun _ => false }
       .always .plManifold true 1 0).2 = 10 := by rfl
+
+end DM.C02
+
+/-! ## The cavity step (`insert_with_conflict_region` / hull extension) on the abstract complex
+
+Model: Model/Cavity.lean — remove the cells `C`, add the cone from the new vertex `v` over the facets
+`F` (`cavityInsertWith`; interior instance `cavityInsert` with `F = cavityBoundary C`).  All
+theorems hold for every cell list (no bound on size or dimension).  Standing hypotheses, stated
+where they are used: cells / facets are sorted duplicate-free lists (`Pairwise (· < ·)`),
+`cells.Nodup`, `C ⊆ cells`, `v` fresh (`∀ c ∈ cells, v ∉ c`).
+
+ * §c1 `cavity_mem`, `cavity_new_contains_v`, `cavity_old_without_v`
+ * §c2 `cavity_length`, `cavity_nodup`, `cavity_count`
+ * §c3 `cavity_vertex_kept_iff`, `cavity_swallowed_vertex_isolated` (the isolated-vertex situation)
+ * §c4 `cavity_star_of_v`, `cavity_star_eq`, `cavity_link_eq` (the link of the new vertex is `F`)
+ * §c5 facet degrees: `cavity_facet_degree_with`, `cavity_facet_degree`,
+       `cavity_facet_degree_le_two(_with)`, `cavity_ridge_degree`
+ * §c6 `cavityStepProblem_none_sound` (the executable check certifies a cavity step),
+       `cavityStepProblem_complete` (every interior cavity insertion passes it)
+ * §c7 non-vacuity by `decide`
+Helper lemmas: Lemmas/CavityAux.lean.  Core only.
+-/
+namespace DM.C02
+open DM
+
+/-! ### §c1 membership -/
+
+theorem cavity_mem (cells C F : List (List Nat)) (v : Nat) (x : List Nat) :
+    x ∈ cavityInsertWith cells C F v ↔ (x ∈ cells ∧ x ∉ C) ∨ ∃ f ∈ F, x = coneCell v f := by
+  unfold cavityInsertWith
+  rw [List.mem_append, List.mem_filter, List.mem_map]
+  constructor
+  · rintro (⟨h1, h2⟩ | ⟨f, hf, rfl⟩)
+    · exact Or.inl ⟨h1, by simpa using h2⟩
+    · exact Or.inr ⟨f, hf, rfl⟩
+  · rintro (⟨h1, h2⟩ | ⟨f, hf, rfl⟩)
+    · exact Or.inl ⟨h1, by simpa using h2⟩
+    · exact Or.inr ⟨f, hf, rfl⟩
+
+/-- every cone cell contains the new vertex -/
+theorem cavity_new_contains_v (v : Nat) (f : List Nat) : v ∈ coneCell v f := self_mem_coneCell v f
+
+/-- kept cells do not contain the new vertex -/
+theorem cavity_old_without_v {cells C : List (List Nat)} {v : Nat} (hfresh : ∀ c ∈ cells, v ∉ c) :
+    ∀ x ∈ cells.filter (fun c => !C.contains c), v ∉ x :=
+  fun x hx => hfresh x (List.mem_filter.1 hx).1
+
+/-! ### §c2 cell count -/
+
+/-- additive form (no truncated subtraction) -/
+theorem cavity_length_add {cells C : List (List Nat)} (F : List (List Nat)) (v : Nat)
+    (hnd : cells.Nodup) (hC : C.Nodup) (hsub : ∀ c ∈ C, c ∈ cells) :
+    (cavityInsertWith cells C F v).length + C.length = cells.length + F.length := by
+  have hp := (filter_not_contains_append_perm hnd hC hsub).length_eq
+  rw [List.length_append] at hp
+  unfold cavityInsertWith
+  rw [List.length_append, List.length_map]
+  omega
+
+theorem cavity_length {cells C : List (List Nat)} (F : List (List Nat)) (v : Nat)
+    (hnd : cells.Nodup) (hC : C.Nodup) (hsub : ∀ c ∈ C, c ∈ cells) :
+    (cavityInsertWith cells C F v).length = cells.length - C.length + F.length := by
+  have := cavity_length_add F v hnd hC hsub
+  have hp := (filter_not_contains_append_perm hnd hC hsub).length_eq
+  rw [List.length_append] at hp
+  omega
+
+theorem cavity_nodup {cells F : List (List Nat)} (C : List (List Nat)) {v : Nat}
+    (hnd : cells.Nodup) (hF : F.Nodup) (hFs : ∀ f ∈ F, f.Pairwise (· < ·))
+    (hfresh : ∀ c ∈ cells, v ∉ c) : (cavityInsertWith cells C F v).Nodup := by
+  unfold cavityInsertWith
+  refine List.nodup_append.2 ⟨List.Nodup.sublist List.filter_sublist hnd,
+    map_coneCell_nodup hF (fun f hf => lt_sorted_le (hFs f hf)), ?_⟩
+  rintro a ha b hb rfl
+  obtain ⟨f, _, rfl⟩ := List.mem_map.1 hb
+  exact cavity_old_without_v hfresh _ ha (self_mem_coneCell v f)
+
+/-- the cell count changes by exactly `|F| - |C|`, and no cell is duplicated -/
+theorem cavity_count {cells C F : List (List Nat)} {v : Nat} (hnd : cells.Nodup) (hC : C.Nodup)
+    (hsub : ∀ c ∈ C, c ∈ cells) (hF : F.Nodup) (hFs : ∀ f ∈ F, f.Pairwise (· < ·))
+    (hfresh : ∀ c ∈ cells, v ∉ c) :
+    (cavityInsertWith cells C F v).length = cells.length - C.length + F.length ∧
+    (cavityInsertWith cells C F v).Nodup :=
+  ⟨cavity_length F v hnd hC hsub, cavity_nodup C hnd hF hFs hfresh⟩
+
+/-! ### §c3 which old vertices survive -/
+
+theorem cavity_vertex_kept_iff (cells C F : List (List Nat)) {u v : Nat} (huv : u ≠ v) :
+    (∃ x ∈ cavityInsertWith cells C F v, u ∈ x) ↔
+      (∃ c ∈ cells, c ∉ C ∧ u ∈ c) ∨ (∃ f ∈ F, u ∈ f) := by
+  constructor
+  · rintro ⟨x, hx, hu⟩
+    rcases (cavity_mem cells C F v x).1 hx with ⟨h1, h2⟩ | ⟨f, hf, rfl⟩
+    · exact Or.inl ⟨x, h1, h2, hu⟩
+    · rcases mem_coneCell.1 hu with h | h
+      · exact absurd h huv
+      · exact Or.inr ⟨f, hf, h⟩
+  · rintro (⟨c, h1, h2, hu⟩ | ⟨f, hf, hu⟩)
+    · exact ⟨c, (cavity_mem cells C F v c).2 (Or.inl ⟨h1, h2⟩), hu⟩
+    · exact ⟨coneCell v f, (cavity_mem cells C F v _).2 (Or.inr ⟨f, hf, rfl⟩),
+        mem_coneCell.2 (Or.inr hu)⟩
+
+/-- **isolated vertex after insertion**: if the removed region swallows the whole star of an old
+vertex `u` and `u` is on no coned facet, then `u` is in no cell afterwards -/
+theorem cavity_swallowed_vertex_isolated (cells C F : List (List Nat)) {u v : Nat} (huv : u ≠ v)
+    (hstar : ∀ c ∈ cells, u ∈ c → c ∈ C) (hF : ∀ f ∈ F, u ∉ f) :
+    ∀ x ∈ cavityInsertWith cells C F v, u ∉ x := by
+  intro x hx hu
+  rcases (cavity_vertex_kept_iff cells C F huv).1 ⟨x, hx, hu⟩ with ⟨c, h1, h2, h3⟩ | ⟨f, hf, h⟩
+  · exact h2 (hstar c h1 h3)
+  · exact hF f hf h
+
+/-- the same, through `vertexSet` -/
+theorem cavity_swallowed_vertex_not_in_vertexSet (cells C F : List (List Nat)) {u v : Nat}
+    (huv : u ≠ v) (hstar : ∀ c ∈ cells, u ∈ c → c ∈ C) (hF : ∀ f ∈ F, u ∉ f) :
+    u ∉ vertexSet (cavityInsertWith cells C F v) := by
+  intro h
+  obtain ⟨x, hx, hu⟩ := mem_vertexSet.1 h
+  exact cavity_swallowed_vertex_isolated cells C F huv hstar hF x hx hu
+
+/-- conversely an old vertex with a cell outside the removed region stays -/
+theorem cavity_vertex_survives {cells C : List (List Nat)} (F : List (List Nat)) (v : Nat) {u : Nat}
+    {c : List Nat} (hc : c ∈ cells) (hcC : c ∉ C) (hu : u ∈ c) :
+    u ∈ vertexSet (cavityInsertWith cells C F v) :=
+  mem_vertexSet.2 ⟨c, (cavity_mem cells C F v c).2 (Or.inl ⟨hc, hcC⟩), hu⟩
+
+/-! ### §c4 the star and the link of the new vertex -/
+
+/-- the cells containing `v` afterwards are exactly the cone cells -/
+theorem cavity_star_of_v {cells : List (List Nat)} (C F : List (List Nat)) {v : Nat}
+    (hfresh : ∀ c ∈ cells, v ∉ c) (x : List Nat) :
+    (x ∈ cavityInsertWith cells C F v ∧ v ∈ x) ↔ ∃ f ∈ F, x = coneCell v f := by
+  rw [cavity_mem]
+  constructor
+  · rintro ⟨⟨h1, _⟩ | h, hv⟩
+    · exact absurd hv (hfresh x h1)
+    · exact h
+  · rintro ⟨f, hf, rfl⟩
+    exact ⟨Or.inr ⟨f, hf, rfl⟩, self_mem_coneCell v f⟩
+
+/-- as lists: the star of `v` is the list of cone cells -/
+theorem cavity_star_eq {cells : List (List Nat)} (C F : List (List Nat)) {v : Nat}
+    (hfresh : ∀ c ∈ cells, v ∉ c) :
+    starOf (cavityInsertWith cells C F v) v = F.map (coneCell v) := by
+  unfold starOf cavityInsertWith
+  rw [List.filter_append]
+  have e1 : (cells.filter (fun c => !C.contains c)).filter (·.contains v) = [] := by
+    rw [List.filter_eq_nil_iff]
+    intro a ha
+    have := cavity_old_without_v hfresh a ha
+    simpa using this
+  have e2 : (F.map (coneCell v)).filter (·.contains v) = F.map (coneCell v) := by
+    rw [List.filter_eq_self]
+    intro a ha
+    obtain ⟨f, _, rfl⟩ := List.mem_map.1 ha
+    simpa using self_mem_coneCell v f
+  rw [e1, e2, List.nil_append]
+
+/-- the link of the new vertex is `F` (as a list, in order) -/
+theorem cavity_link_eq {cells F : List (List Nat)} (C : List (List Nat)) {v : Nat}
+    (hfresh : ∀ c ∈ cells, v ∉ c) (hFs : ∀ f ∈ F, f.Pairwise (· < ·)) (hvF : ∀ f ∈ F, v ∉ f) :
+    linkOf (cavityInsertWith cells C F v) v = F := by
+  unfold linkOf
+  rw [cavity_star_eq C F hfresh, List.map_map]
+  have : ∀ f ∈ F, ((fun c => without c v) ∘ coneCell v) f = id f := fun f hf =>
+    without_coneCell_self (lt_sorted_le (hFs f hf)) (hvF f hf)
+  rw [List.map_congr_left this, List.map_id]
+
+/-- interior instance: the link of the new vertex is the boundary of the removed region -/
+theorem cavity_link_interior {cells C : List (List Nat)} {v : Nat}
+    (hs : ∀ c ∈ cells, c.Pairwise (· < ·)) (hsub : ∀ c ∈ C, c ∈ cells)
+    (hfresh : ∀ c ∈ cells, v ∉ c) : linkOf (cavityInsert cells C v) v = cavityBoundary C :=
+  cavity_link_eq C hfresh (cavityBoundary_lt_sorted (fun c hc => hs c (hsub c hc)))
+    (cavityBoundary_fresh (fun c hc => hfresh c (hsub c hc)))
+
+/-! ### §c5 facet degrees -/
+
+/-- facets not containing `v`, general `F`: the degree drops by the degree inside the removed
+region and rises by one iff the facet is coned -/
+theorem cavity_facet_degree_with {cells C F : List (List Nat)} {v : Nat} (hnd : cells.Nodup)
+    (hC : C.Nodup) (hsub : ∀ c ∈ C, c ∈ cells) (hF : F.Nodup)
+    (hFs : ∀ f ∈ F, f.Pairwise (· < ·)) (hvF : ∀ f ∈ F, v ∉ f) {f : List Nat} (hvf : v ∉ f) :
+    facetCount (cavityInsertWith cells C F v) f =
+      facetCount cells f - facetCount C f + (if f ∈ F then 1 else 0) := by
+  unfold cavityInsertWith
+  rw [facetCount_append, facetCount_cone_base hFs hvF hvf, hF.count,
+    facetCount_filter_split hnd hC hsub f]
+  omega
+
+/-- facets not containing `v`, interior instance -/
+theorem cavity_facet_degree {cells C : List (List Nat)} {v : Nat} (hnd : cells.Nodup)
+    (hs : ∀ c ∈ cells, c.Pairwise (· < ·)) (hC : C.Nodup) (hsub : ∀ c ∈ C, c ∈ cells)
+    (hfresh : ∀ c ∈ cells, v ∉ c) {f : List Nat} (hvf : v ∉ f) :
+    facetCount (cavityInsert cells C v) f =
+      facetCount cells f - facetCount C f + (if f ∈ cavityBoundary C then 1 else 0) :=
+  cavity_facet_degree_with hnd hC hsub (cavityBoundary_nodup C)
+    (cavityBoundary_lt_sorted (fun c hc => hs c (hsub c hc)))
+    (cavityBoundary_fresh (fun c hc => hfresh c (hsub c hc))) hvf
+
+/-- a facet has at least the degree in `cells` that it has in `C ⊆ cells` -/
+theorem cavity_facetCount_removed_le {cells C : List (List Nat)} (hnd : cells.Nodup) (hC : C.Nodup)
+    (hsub : ∀ c ∈ C, c ∈ cells) (f : List Nat) : facetCount C f ≤ facetCount cells f := by
+  rw [facetCount_filter_split hnd hC hsub f]
+  omega
+
+/-- general `F` (interior or hull extension): if every coned facet is a boundary facet of the
+removed region or has degree ≤ 1 before (a hull facet), facets not containing `v` keep degree ≤ 2 -/
+theorem cavity_facet_degree_le_two_with {cells C F : List (List Nat)} {v : Nat} (hnd : cells.Nodup)
+    (hC : C.Nodup) (hsub : ∀ c ∈ C, c ∈ cells) (hF : F.Nodup)
+    (hFs : ∀ f ∈ F, f.Pairwise (· < ·)) (hvF : ∀ f ∈ F, v ∉ f)
+    (hFok : ∀ f ∈ F, f ∈ cavityBoundary C ∨ facetCount cells f ≤ 1)
+    (h2 : ∀ f, facetCount cells f ≤ 2) {f : List Nat} (hvf : v ∉ f) :
+    facetCount (cavityInsertWith cells C F v) f ≤ 2 := by
+  rw [cavity_facet_degree_with hnd hC hsub hF hFs hvF hvf]
+  have hle := cavity_facetCount_removed_le hnd hC hsub f
+  have := h2 f
+  by_cases hm : f ∈ F
+  · rw [if_pos hm]
+    rcases hFok f hm with hb | h1
+    · have := mem_cavityBoundary.1 hb
+      omega
+    · omega
+  · rw [if_neg hm]
+    omega
+
+/-- interior instance: if every facet has degree ≤ 2 before, every facet not containing `v` still
+has degree ≤ 2 afterwards -/
+theorem cavity_facet_degree_le_two {cells C : List (List Nat)} {v : Nat} (hnd : cells.Nodup)
+    (hs : ∀ c ∈ cells, c.Pairwise (· < ·)) (hC : C.Nodup) (hsub : ∀ c ∈ C, c ∈ cells)
+    (hfresh : ∀ c ∈ cells, v ∉ c) (h2 : ∀ f, facetCount cells f ≤ 2) {f : List Nat}
+    (hvf : v ∉ f) : facetCount (cavityInsert cells C v) f ≤ 2 :=
+  cavity_facet_degree_le_two_with hnd hC hsub (cavityBoundary_nodup C)
+    (cavityBoundary_lt_sorted (fun c hc => hs c (hsub c hc)))
+    (cavityBoundary_fresh (fun c hc => hfresh c (hsub c hc))) (fun _ hf => Or.inl hf) h2 hvf
+
+/-- facets containing `v` (ridge-cones): the degree of `r ∪ {v}` afterwards is the number of
+facets of `F` that contain the ridge `r` -/
+theorem cavity_ridge_degree {cells F : List (List Nat)} (C : List (List Nat)) {v : Nat}
+    (hfresh : ∀ c ∈ cells, v ∉ c) (hFs : ∀ f ∈ F, f.Pairwise (· < ·)) (hvF : ∀ f ∈ F, v ∉ f)
+    {r : List Nat} (hr : r.Pairwise (· ≤ ·)) :
+    facetCount (cavityInsertWith cells C F v) (coneCell v r) = ridgeCount F r := by
+  unfold cavityInsertWith ridgeCount
+  rw [facetCount_append, facetCount_cone_ridge hFs hvF hr,
+    facetCount_eq_zero_of_fresh (cavity_old_without_v hfresh) (self_mem_coneCell v r)]
+  omega
+
+/-- hence: if every ridge lies in at most two facets of `F` (e.g. `F` is a closed pseudomanifold),
+every facet through `v` has degree ≤ 2 -/
+theorem cavity_ridge_degree_le_two {cells F : List (List Nat)} (C : List (List Nat)) {v : Nat}
+    (hfresh : ∀ c ∈ cells, v ∉ c) (hFs : ∀ f ∈ F, f.Pairwise (· < ·)) (hvF : ∀ f ∈ F, v ∉ f)
+    (h2 : ∀ r, ridgeCount F r ≤ 2) {r : List Nat} (hr : r.Pairwise (· ≤ ·)) :
+    facetCount (cavityInsertWith cells C F v) (coneCell v r) ≤ 2 := by
+  rw [cavity_ridge_degree C hfresh hFs hvF hr]
+  exact h2 r
+
+/-! ### §c6 the executable step check -/
+
+/-- what `cavityStepProblem pre post v = none` checks, in `Prop` form; `C = stepRemoved pre post`
+(`pre \ post`), `N = stepCreated pre post` (`post \ pre`), `L = stepLink pre post v` -/
+structure StepChecks (pre post : List (List Nat)) (v : Nat) : Prop where
+  fresh : ∀ c ∈ pre, v ∉ c
+  created : stepCreated pre post ≠ []
+  new_contains : ∀ c ∈ stepCreated pre post, v ∈ c
+  link_nodup : (stepLink pre post v).Nodup
+  boundary_covered : ∀ f ∈ cavityBoundary (stepRemoved pre post),
+    f ∈ stepLink pre post v ∨ facetCount pre f = 1
+  link_justified : ∀ f ∈ stepLink pre post v, f ∈ cavityBoundary (stepRemoved pre post) ∨
+    (facetCount pre f = 1 ∧ facetCount (stepRemoved pre post) f = 0)
+  post_sub : ∀ x ∈ post,
+    x ∈ cavityInsertWith pre (stepRemoved pre post) (stepLink pre post v) v
+  sub_post : ∀ x ∈ cavityInsertWith pre (stepRemoved pre post) (stepLink pre post v) v, x ∈ post
+
+theorem not_bnot_true {b : Bool} (h : ¬ ((!b) = true)) : b = true := by
+  cases b <;> simp_all
+
+theorem cavityStepProblem_none_iff (pre post : List (List Nat)) (v : Nat) :
+    cavityStepProblem pre post v = none ↔ StepChecks pre post v := by
+  unfold cavityStepProblem
+  dsimp only
+  constructor
+  · intro h
+    split at h
+    · cases h
+    rename_i h1
+    split at h
+    · cases h
+    rename_i h0
+    split at h
+    · cases h
+    rename_i h2
+    split at h
+    · cases h
+    rename_i h3
+    split at h
+    · cases h
+    rename_i h4
+    split at h
+    · cases h
+    rename_i h5
+    split at h
+    · cases h
+    rename_i h6
+    have h2 := List.all_eq_true.1 (not_bnot_true h2)
+    have h3 := (nodupB_iff _).1 (not_bnot_true h3)
+    have h4 := List.all_eq_true.1 (not_bnot_true h4)
+    have h5 := List.all_eq_true.1 (not_bnot_true h5)
+    have h6 := Bool.and_eq_true_iff.1 (not_bnot_true h6)
+    have h6a := List.all_eq_true.1 h6.1
+    have h6b := List.all_eq_true.1 h6.2
+    refine ⟨by simpa using h1, by simpa using h0, fun c hc => by simpa using h2 c hc, h3,
+      ?_, ?_, fun x hx => List.contains_iff_mem.1 (h6a x hx),
+      fun x hx => List.contains_iff_mem.1 (h6b x hx)⟩
+    · intro f hf
+      have := h4 f hf
+      unfold facetCount
+      simpa using this
+    · intro f hf
+      have := h5 f hf
+      unfold facetCount
+      simpa using this
+  · intro k
+    have b2 : (stepCreated pre post).all (·.contains v) = true :=
+      List.all_eq_true.2 (fun c hc => by simpa using k.new_contains c hc)
+    have b3 : nodupB (stepLink pre post v) = true := (nodupB_iff _).2 k.link_nodup
+    have b4 : (cavityBoundary (stepRemoved pre post)).all
+        (fun f => (stepLink pre post v).contains f || (cellFacets pre).count f == 1) = true :=
+      List.all_eq_true.2 (fun f hf => by simpa [facetCount] using k.boundary_covered f hf)
+    have b5 : (stepLink pre post v).all (fun f => (cavityBoundary (stepRemoved pre post)).contains f
+        || ((cellFacets pre).count f == 1 && (cellFacets (stepRemoved pre post)).count f == 0))
+        = true :=
+      List.all_eq_true.2 (fun f hf => by simpa [facetCount] using k.link_justified f hf)
+    have b6a : post.all
+        (cavityInsertWith pre (stepRemoved pre post) (stepLink pre post v) v).contains = true :=
+      List.all_eq_true.2 (fun x hx => List.contains_iff_mem.2 (k.post_sub x hx))
+    have b6b : (cavityInsertWith pre (stepRemoved pre post) (stepLink pre post v) v).all
+        post.contains = true :=
+      List.all_eq_true.2 (fun x hx => List.contains_iff_mem.2 (k.sub_post x hx))
+    rw [if_neg (by simpa using k.fresh), if_neg (by simpa using k.created), b2, b3, b4, b5, b6a, b6b]
+    rfl
+
+theorem mem_stepRemoved {pre post : List (List Nat)} {c : List Nat} :
+    c ∈ stepRemoved pre post ↔ c ∈ pre ∧ c ∉ post := by
+  simp [stepRemoved]
+
+theorem mem_stepCreated {pre post : List (List Nat)} {c : List Nat} :
+    c ∈ stepCreated pre post ↔ c ∈ post ∧ c ∉ pre := by
+  simp [stepCreated]
+
+/-- what a legal cavity / hull-extension step from `pre` to `post` with removed region `C` and
+coned facets `F` is -/
+structure CavityStepSpec (pre post : List (List Nat)) (v : Nat) (C F : List (List Nat)) : Prop where
+  removed_sub : ∀ c ∈ C, c ∈ pre
+  removed_gone : ∀ c ∈ C, c ∉ post
+  fresh : ∀ c ∈ pre, v ∉ c
+  created : F ≠ []
+  new_contains : ∀ x ∈ post, x ∉ pre → v ∈ x
+  link_nodup : F.Nodup
+  link_fresh : ∀ f ∈ F, v ∉ f
+  boundary_covered : ∀ f ∈ cavityBoundary C, f ∈ F ∨ facetCount pre f = 1
+  link_justified : ∀ f ∈ F, f ∈ cavityBoundary C ∨ (facetCount pre f = 1 ∧ facetCount C f = 0)
+  same_cells : ∀ x, x ∈ post ↔ x ∈ cavityInsertWith pre C F v
+
+/-- **soundness of the executable check**, with the reconstructed `C` and `F` -/
+theorem cavityStepProblem_none_spec {pre post : List (List Nat)} {v : Nat}
+    (h : cavityStepProblem pre post v = none) :
+    CavityStepSpec pre post v (stepRemoved pre post) (stepLink pre post v) := by
+  have k := (cavityStepProblem_none_iff pre post v).1 h
+  refine ⟨fun c hc => (mem_stepRemoved.1 hc).1, fun c hc => (mem_stepRemoved.1 hc).2, k.fresh, ?_,
+    fun x hx hn => k.new_contains x (mem_stepCreated.2 ⟨hx, hn⟩), k.link_nodup, ?_,
+    k.boundary_covered, k.link_justified, fun x => ⟨k.post_sub x, k.sub_post x⟩⟩
+  · intro e
+    apply k.created
+    unfold stepLink at e
+    exact List.map_eq_nil_iff.1 e
+  · intro f hf
+    unfold stepLink at hf
+    obtain ⟨c, _, rfl⟩ := List.mem_map.1 hf
+    exact not_mem_without_self c v
+
+/-- **soundness of the executable check**: a step that passes is a cavity step — there are a
+removed region `C ⊆ pre` and facets `F` such that `post` is, as a set of cells, the cavity
+insertion of `v` into `pre`; every new cell contains `v`, no old cell does, and the coned facets are
+boundary facets of `C` or hull facets of kept cells -/
+theorem cavityStepProblem_none_sound {pre post : List (List Nat)} {v : Nat}
+    (h : cavityStepProblem pre post v = none) :
+    ∃ C F, (∀ c ∈ C, c ∈ pre) ∧
+      (∀ x, x ∈ post ↔ x ∈ cavityInsertWith pre C F v) ∧
+      (∀ x ∈ post, x ∉ pre → v ∈ x) ∧ (∀ c ∈ pre, v ∉ c) ∧ F ≠ [] ∧ F.Nodup ∧
+      (∀ f ∈ cavityBoundary C, f ∈ F ∨ facetCount pre f = 1) ∧
+      (∀ f ∈ F, f ∈ cavityBoundary C ∨ (facetCount pre f = 1 ∧ facetCount C f = 0)) := by
+  have k := cavityStepProblem_none_spec h
+  exact ⟨_, _, k.removed_sub, k.same_cells, k.new_contains, k.fresh, k.created, k.link_nodup,
+    k.boundary_covered, k.link_justified⟩
+
+/-- end to end: a step that passes the check keeps every facet not containing `v` at degree ≤ 2 -/
+theorem cavityStep_facet_degree_le_two {pre post : List (List Nat)} {v : Nat}
+    (h : cavityStepProblem pre post v = none) (hpre : pre.Nodup) (hpost : post.Nodup)
+    (hs : ∀ c ∈ post, c.Pairwise (· < ·)) (h2 : ∀ f, facetCount pre f ≤ 2) {f : List Nat}
+    (hvf : v ∉ f) : facetCount post f ≤ 2 := by
+  have k := cavityStepProblem_none_spec h
+  have hC : (stepRemoved pre post).Nodup := List.Nodup.sublist List.filter_sublist hpre
+  have hLs : ∀ g ∈ stepLink pre post v, g.Pairwise (· < ·) := by
+    intro g hg
+    unfold stepLink at hg
+    obtain ⟨c, hc, rfl⟩ := List.mem_map.1 hg
+    exact without_lt_sorted (hs c (mem_stepCreated.1 hc).1) v
+  have hins := cavity_nodup (stepRemoved pre post) hpre k.link_nodup hLs k.fresh
+  have hperm : post.Perm (cavityInsertWith pre (stepRemoved pre post) (stepLink pre post v) v) :=
+    (List.perm_ext_iff_of_nodup hpost hins).2 k.same_cells
+  rw [facetCount_perm hperm f]
+  refine cavity_facet_degree_le_two_with hpre hC k.removed_sub k.link_nodup hLs k.link_fresh ?_ h2 hvf
+  intro g hg
+  rcases k.link_justified g hg with hb | ⟨h1, _⟩
+  · exact Or.inl hb
+  · exact Or.inr (by omega)
+
+theorem cavityBoundary_mem_perm {C' C : List (List Nat)} (h : C'.Perm C) (f : List Nat) :
+    f ∈ cavityBoundary C' ↔ f ∈ cavityBoundary C := by
+  rw [mem_cavityBoundary, mem_cavityBoundary, facetCount_perm h f]
+
+/-- **completeness of the executable check**: every cavity insertion whose coned facets are
+boundary facets of the removed region or hull facets of kept cells, and which cones or drops (as a
+hull facet) every boundary facet of the removed region, passes the check.  Together with
+`cavityStepProblem_none_spec` the check accepts exactly the legal steps. -/
+theorem cavityStepProblem_complete {pre C F : List (List Nat)} {v : Nat} (hnd : pre.Nodup)
+    (hC : C.Nodup) (hsub : ∀ c ∈ C, c ∈ pre) (hfresh : ∀ c ∈ pre, v ∉ c) (hF : F.Nodup)
+    (hFne : F ≠ []) (hFs : ∀ f ∈ F, f.Pairwise (· < ·)) (hvF : ∀ f ∈ F, v ∉ f)
+    (hcov : ∀ f ∈ cavityBoundary C, f ∈ F ∨ facetCount pre f = 1)
+    (hjust : ∀ f ∈ F, f ∈ cavityBoundary C ∨ (facetCount pre f = 1 ∧ facetCount C f = 0)) :
+    cavityStepProblem pre (cavityInsertWith pre C F v) v = none := by
+  have hpost : ∀ c ∈ pre, (c ∈ cavityInsertWith pre C F v ↔ c ∉ C) := by
+    intro c hc
+    rw [cavity_mem]
+    constructor
+    · rintro (h | ⟨f, _, rfl⟩)
+      · exact h.2
+      · exact absurd (self_mem_coneCell v f) (hfresh _ hc)
+    · exact fun h => Or.inl ⟨hc, h⟩
+  have e1 : stepRemoved pre (cavityInsertWith pre C F v) = pre.filter (fun c => C.contains c) := by
+    unfold stepRemoved
+    apply List.filter_congr
+    intro c hc
+    by_cases hm : c ∈ C
+    · have : c ∉ cavityInsertWith pre C F v := fun h => (hpost c hc).1 h hm
+      simp [hm, this]
+    · have : c ∈ cavityInsertWith pre C F v := (hpost c hc).2 hm
+      simp [hm, this]
+  have p1 : (stepRemoved pre (cavityInsertWith pre C F v)).Perm C :=
+    e1.symm ▸ filter_contains_perm hnd hC hsub
+  have e2 : stepCreated pre (cavityInsertWith pre C F v) = F.map (coneCell v) := by
+    unfold stepCreated cavityInsertWith
+    rw [List.filter_append]
+    have a1 : (pre.filter (fun c => !C.contains c)).filter (fun c => !pre.contains c) = [] := by
+      rw [List.filter_eq_nil_iff]
+      intro a ha
+      simp [(List.mem_filter.1 ha).1]
+    have a2 : (F.map (coneCell v)).filter (fun c => !pre.contains c) = F.map (coneCell v) := by
+      rw [List.filter_eq_self]
+      intro a ha
+      obtain ⟨f, _, rfl⟩ := List.mem_map.1 ha
+      have : coneCell v f ∉ pre := fun h => hfresh _ h (self_mem_coneCell v f)
+      simp [this]
+    rw [a1, a2, List.nil_append]
+  have e3 : stepLink pre (cavityInsertWith pre C F v) v = F := by
+    unfold stepLink
+    rw [e2, List.map_map]
+    have : ∀ f ∈ F, ((fun c => without c v) ∘ coneCell v) f = id f := fun f hf =>
+      without_coneCell_self (lt_sorted_le (hFs f hf)) (hvF f hf)
+    rw [List.map_congr_left this, List.map_id]
+  have hset : ∀ x, x ∈ cavityInsertWith pre C F v ↔
+      x ∈ cavityInsertWith pre (stepRemoved pre (cavityInsertWith pre C F v)) F v := by
+    intro x
+    rw [cavity_mem, cavity_mem, p1.mem_iff]
+  rw [cavityStepProblem_none_iff]
+  refine ⟨hfresh, ?_, ?_, e3.symm ▸ hF, ?_, ?_, ?_, ?_⟩
+  · rw [e2]
+    exact fun e => hFne (List.map_eq_nil_iff.1 e)
+  · rw [e2]
+    intro c hc
+    obtain ⟨f, _, rfl⟩ := List.mem_map.1 hc
+    exact self_mem_coneCell v f
+  · rw [e3]
+    intro f hf
+    exact hcov f ((cavityBoundary_mem_perm p1 f).1 hf)
+  · rw [e3]
+    intro f hf
+    rcases hjust f hf with h | h
+    · exact Or.inl ((cavityBoundary_mem_perm p1 f).2 h)
+    · exact Or.inr ⟨h.1, (facetCount_perm p1 f).trans h.2⟩
+  · rw [e3]
+    exact fun x hx => (hset x).1 hx
+  · rw [e3]
+    exact fun x hx => (hset x).2 hx
+
+/-- interior instance: every cavity insertion over the boundary of a removed region that has a
+boundary passes the check -/
+theorem cavityStepProblem_complete_interior {pre C : List (List Nat)} {v : Nat} (hnd : pre.Nodup)
+    (hs : ∀ c ∈ pre, c.Pairwise (· < ·)) (hC : C.Nodup) (hsub : ∀ c ∈ C, c ∈ pre)
+    (hfresh : ∀ c ∈ pre, v ∉ c) (hB : cavityBoundary C ≠ []) :
+    cavityStepProblem pre (cavityInsert pre C v) v = none :=
+  cavityStepProblem_complete hnd hC hsub hfresh (cavityBoundary_nodup C) hB
+    (cavityBoundary_lt_sorted (fun c hc => hs c (hsub c hc)))
+    (cavityBoundary_fresh (fun c hc => hfresh c (hsub c hc))) (fun _ hf => Or.inl hf)
+    (fun _ hf => Or.inl hf)
+
+/-! ### §c7 non-vacuity -/
+
+/-- 2-D, interior point: `4` inserted into the two triangles `[0,1,2]`, `[1,2,3]`, both in conflict:
+four cone cells over the four boundary edges; the check accepts the step; the link of `4` is the
+boundary of the removed region -/
+theorem ex_cavity_2d :
+    cavityBoundary [[0, 1, 2], [1, 2, 3]] = [[0, 2], [0, 1], [2, 3], [1, 3]] ∧
+    cavityInsert [[0, 1, 2], [1, 2, 3]] [[0, 1, 2], [1, 2, 3]] 4 =
+      [[0, 2, 4], [0, 1, 4], [2, 3, 4], [1, 3, 4]] ∧
+    cavityStepProblem [[0, 1, 2], [1, 2, 3]] [[0, 2, 4], [0, 1, 4], [2, 3, 4], [1, 3, 4]] 4 = none ∧
+    linkOf [[0, 2, 4], [0, 1, 4], [2, 3, 4], [1, 3, 4]] 4 = [[0, 2], [0, 1], [2, 3], [1, 3]] := by
+  decide
+
+/-- swallowed vertex: the fan of three triangles around `9` inside `[0,1,2]`; the conflict region
+is the whole star of `9`, so `9` is in no cell afterwards although the step is a legal cavity step
+(instance of `cavity_swallowed_vertex_isolated`) -/
+theorem ex_cavity_swallowed :
+    cavityInsert [[0, 1, 9], [1, 2, 9], [0, 2, 9]] [[0, 1, 9], [1, 2, 9], [0, 2, 9]] 10 =
+      [[0, 1, 10], [1, 2, 10], [0, 2, 10]] ∧
+    cavityStepProblem [[0, 1, 9], [1, 2, 9], [0, 2, 9]] [[0, 1, 10], [1, 2, 10], [0, 2, 10]] 10
+      = none ∧
+    (∀ x ∈ cavityInsert [[0, 1, 9], [1, 2, 9], [0, 2, 9]] [[0, 1, 9], [1, 2, 9], [0, 2, 9]] 10,
+      9 ∉ x) ∧
+    9 ∉ vertexSet (cavityInsert [[0, 1, 9], [1, 2, 9], [0, 2, 9]] [[0, 1, 9], [1, 2, 9], [0, 2, 9]] 10)
+      := by
+  decide
+
+/-- the same conclusion obtained from the general theorem -/
+example : ∀ x ∈ cavityInsert [[0, 1, 9], [1, 2, 9], [0, 2, 9]] [[0, 1, 9], [1, 2, 9], [0, 2, 9]] 10,
+    9 ∉ x :=
+  cavity_swallowed_vertex_isolated _ _ _ (by decide) (by decide) (by decide)
+
+/-- hull extension: `3` outside `[0,1,2]` seeing the edge `[1,2]`: nothing removed, one cone -/
+theorem ex_cavity_hull :
+    cavityInsertWith [[0, 1, 2]] [] [[1, 2]] 3 = [[0, 1, 2], [1, 2, 3]] ∧
+    cavityStepProblem [[0, 1, 2]] [[0, 1, 2], [1, 2, 3]] 3 = none := by
+  decide
+
+/-- hull extension with a non-empty conflict region: `4` outside, in conflict with `[1,2,3]`, sees
+the hull edge `[2,3]`: the boundary edge `[2,3]` of the removed region disappears, `[1,2]` and
+`[1,3]` are coned -/
+theorem ex_cavity_hull_conflict :
+    cavityStepProblem [[0, 1, 2], [1, 2, 3]] [[0, 1, 2], [1, 2, 4], [1, 3, 4]] 4 = none := by
+  decide
+
+/-- 3-D interior: two tetrahedra in conflict, a third kept; degrees of the facets are as
+`cavity_facet_degree` says -/
+theorem ex_cavity_3d :
+    cavityInsert [[0, 1, 2, 3], [1, 2, 3, 4], [0, 1, 2, 5]] [[0, 1, 2, 3], [1, 2, 3, 4]] 7 =
+      [[0, 1, 2, 5], [0, 2, 3, 7], [0, 1, 3, 7], [0, 1, 2, 7], [2, 3, 4, 7], [1, 3, 4, 7],
+        [1, 2, 4, 7]] ∧
+    cavityStepProblem [[0, 1, 2, 3], [1, 2, 3, 4], [0, 1, 2, 5]]
+      [[0, 1, 2, 5], [0, 2, 3, 7], [0, 1, 3, 7], [0, 1, 2, 7], [2, 3, 4, 7], [1, 3, 4, 7],
+        [1, 2, 4, 7]] 7 = none := by
+  decide
+
+/-- negative: the cell `[1,2,3]` is dropped but its interior boundary edge `[1,2]` is not coned -/
+theorem ex_cavity_bad_uncovered :
+    (cavityStepProblem [[0, 1, 2], [1, 2, 3]] [[0, 1, 2], [1, 3, 4], [2, 3, 4]] 4).isSome = true ∧
+    (cavityStepProblem [[0, 1, 2], [1, 2, 3]] [[0, 1, 2]] 4).isSome = true := by
+  decide
+
+/-- negative: a cone over an interior edge of kept cells (`[1,2]` has degree 2 and nothing was
+removed); a created cell without the new vertex; a vertex that is not new; nothing created -/
+theorem ex_cavity_bad_other :
+    (cavityStepProblem [[0, 1, 2], [1, 2, 3]] [[0, 1, 2], [1, 2, 3], [1, 2, 4]] 4).isSome = true ∧
+    (cavityStepProblem [[0, 1, 2]] [[0, 1, 2], [1, 2, 3], [0, 1, 5]] 3).isSome = true ∧
+    (cavityStepProblem [[0, 1, 2]] [[0, 1, 2], [1, 2, 3]] 2).isSome = true ∧
+    (cavityStepProblem [[0, 1, 2]] [[0, 1, 2]] 3).isSome = true := by
+  decide
 
 end DM.C02
